@@ -144,6 +144,20 @@ fn materialise(r: &Raw) -> Option<Member> {
     // what the hash "is" for C17 is what the library's own normalized object
     // says (whether normalization is *right* is not C17's business)
     let norm = (ln.log_block_size(), ln.block_hash_1().to_vec(), ln.block_hash_2().to_vec());
+    // The operand kinds of one member must be the *same hash* as far as the
+    // library's own accessors tell: if a conversion (raw -> dual, long ->
+    // short) lost or changed content, a target built from that operand
+    // legitimately differs from one built from `ln` -- a conversion defect
+    // (C15), not C17's to report.  Such a member is left out.
+    let same = |h: &LongFuzzyHash| h.log_block_size() == norm.0 && h.block_hash_1() == &norm.1[..] && h.block_hash_2() == &norm.2[..];
+    if !same(ld.as_normalized()) {
+        return None;
+    }
+    if let (Some(n), Some(d)) = (&n, &d) {
+        if !same(&n.to_long_form()) || !same(&d.as_normalized().to_long_form()) {
+            return None;
+        }
+    }
     Some(Member { raw: r.clone(), norm, ln, ld, n, d })
 }
 
@@ -198,7 +212,13 @@ fn step(cx: &mut Ctx, st: &mut State, op: &Op) {
             // building the pool uses constructors / normalization / dual
             // compression: if any of that panics it is not C17's to report
             st.pool = match guarded(|| v.iter().filter_map(materialise).collect::<Vec<Member>>()) {
-                Ok(p) => p,
+                Ok(p) => {
+                    let expected = v.iter().filter(|(l, a, b)| *l < 31 && a.len() <= 64 && b.len() <= 64 && a.iter().chain(b.iter()).all(|&x| x < 64)).count();
+                    if p.len() < expected {
+                        cx.probe("tgt.pool_member_inconsistent_left_out");
+                    }
+                    p
+                }
                 Err(_) => {
                     cx.probe("tgt.pool_build_panicked");
                     Vec::new()
